@@ -16,7 +16,7 @@ Proof. exact texts_depend_only_on_entry. Qed.
 
 Theorem c03_item_is_pointwise : forall d p c n s t,
   In (c, n, s, t) (items_of d p) ->
-  alg_texts d c n = Some t /\ s = shown_name c n (pr_hostkeys p) (pr_dh p) /\ In n (match assoc c (cat_lists (pr_k p)) with Some l => l | None => [] end).
+  alg_texts d c n = Some t /\ s = display (shown_name c n (pr_hostkeys p) (pr_dh p)) /\ In n (match assoc c (cat_lists (pr_k p)) with Some l => l | None => [] end).
 Proof. exact item_is_pointwise. Qed.
 
 Theorem c03_text_json_agree : forall d c n e,
